@@ -3,106 +3,6 @@ import TacklerModel.Model.Order
     sorted lists are unique up to permutation. -/
 namespace Tackler
 
-/-! ### `optLt` is a strict linear order on `Option String` -/
-
-theorem optLt_irrefl (a : Option String) : optLt a a = false := by
-  cases a <;> simp [optLt, String.lt_irrefl]
-
-theorem optLt_trans {a b c : Option String} (h1 : optLt a b = true) (h2 : optLt b c = true) : optLt a c = true := by
-  cases a <;> cases b <;> cases c <;> simp_all [optLt]
-  exact String.lt_trans h1 h2
-
-theorem optLt_asymm {a b : Option String} (h : optLt a b = true) : optLt b a = false := by
-  cases a <;> cases b <;> simp_all [optLt]
-  exact String.lt_asymm h
-
-theorem optLt_trichotomy (a b : Option String) (h1 : optLt a b = false) (h2 : optLt b a = false) : a = b := by
-  cases a <;> cases b <;> simp_all [optLt]
-  exact String.le_antisymm h2 h1
-
-/-- negative transitivity: the complement of a strict linear order is transitive -/
-theorem optLt_neg_trans {a b c : Option String} (h1 : optLt b a = false) (h2 : optLt c b = false) :
-    optLt c a = false := by
-  cases hca : optLt c a with
-  | false => rfl
-  | true =>
-    -- c < a; compare b with c
-    cases hbc : optLt b c with
-    | true => have := optLt_trans hbc hca; simp [this] at h1
-    | false =>
-      have : b = c := optLt_trichotomy b c hbc h2
-      subst this; simp [hca] at h1
-
-/-! ### a generic lexicographic "≤" built from a strict order -/
-
-theorem str_trichotomy (a b : String) (h1 : ¬ a < b) (h2 : ¬ b < a) : a = b :=
-  String.le_antisymm (String.not_lt.mp h2) (String.not_lt.mp h1)
-
-theorem hdrLe_total (a b : Header) : hdrLe a b = true ∨ hdrLe b a = true := by
-  unfold hdrLe
-  simp only
-  by_cases h1 : (hdrKey a).1 < (hdrKey b).1
-  · simp [h1]
-  · by_cases h2 : (hdrKey b).1 < (hdrKey a).1
-    · right; simp [h2]
-    · simp only [h1, h2, if_false]
-      cases h3 : optLt (hdrKey a).2.1 (hdrKey b).2.1
-      · cases h4 : optLt (hdrKey b).2.1 (hdrKey a).2.1
-        · simp only [Bool.false_eq_true, if_false]
-          cases h5 : optLt (hdrKey a).2.2.1 (hdrKey b).2.2.1
-          · cases h6 : optLt (hdrKey b).2.2.1 (hdrKey a).2.2.1
-            · simp only [Bool.false_eq_true, if_false]
-              by_cases h7 : (hdrKey b).2.2.2 < (hdrKey a).2.2.2
-              · right; simp [String.lt_asymm h7]
-              · left; simp [h7]
-            · right; simp
-          · left; simp
-        · right; simp
-      · left; simp
-
-/-- equal in the order ⇒ equal keys -/
-theorem hdrLe_antisymm (a b : Header) (h1 : hdrLe a b = true) (h2 : hdrLe b a = true) : hdrKey a = hdrKey b := by
-  unfold hdrLe at h1 h2
-  simp only at h1 h2
-  have e1 : (hdrKey a).1 = (hdrKey b).1 := by
-    by_cases x : (hdrKey a).1 < (hdrKey b).1
-    · have y : ¬ (hdrKey b).1 < (hdrKey a).1 := by omega
-      simp [x, y] at h2
-    · by_cases y : (hdrKey b).1 < (hdrKey a).1
-      · simp [x, y] at h1
-      · omega
-  have n1 : ¬ (hdrKey a).1 < (hdrKey b).1 := by omega
-  have n2 : ¬ (hdrKey b).1 < (hdrKey a).1 := by omega
-  simp only [n1, n2, if_false] at h1 h2
-  have e2 : (hdrKey a).2.1 = (hdrKey b).2.1 := by
-    cases x : optLt (hdrKey a).2.1 (hdrKey b).2.1
-    · cases y : optLt (hdrKey b).2.1 (hdrKey a).2.1
-      · exact optLt_trichotomy _ _ x y
-      · simp [x, y] at h1
-    · have y := optLt_asymm x
-      simp [x, y] at h2
-  rw [e2] at h1 h2
-  simp only [optLt_irrefl, Bool.false_eq_true, if_false] at h1 h2
-  have e3 : (hdrKey a).2.2.1 = (hdrKey b).2.2.1 := by
-    cases x : optLt (hdrKey a).2.2.1 (hdrKey b).2.2.1
-    · cases y : optLt (hdrKey b).2.2.1 (hdrKey a).2.2.1
-      · exact optLt_trichotomy _ _ x y
-      · simp [x, y] at h1
-    · have y := optLt_asymm x
-      simp [x, y] at h2
-  rw [e3] at h1 h2
-  simp only [optLt_irrefl, Bool.false_eq_true, if_false] at h1 h2
-  have e4 : (hdrKey a).2.2.2 = (hdrKey b).2.2.2 := by
-    simp at h1 h2
-    exact str_trichotomy _ _ h2 h1
-  exact Prod.ext e1 (Prod.ext e2 (Prod.ext e3 e4))
-
-theorem hdrLe_refl (a : Header) : hdrLe a a = true := by
-  rcases hdrLe_total a a with h | h <;> exact h
-
-/-- the strict part, as a 4-level lexicographic comparison, for the transitivity proof -/
-def hdrLt (a b : Header) : Bool := !hdrLe b a
-
 /-- strict linear order, as Boolean relation -/
 structure StrictLin {α} (lt : α → α → Bool) : Prop where
   trans : ∀ {a b c}, lt a b = true → lt b c = true → lt a c = true
@@ -136,35 +36,107 @@ theorem lexLe_trans {α β} {lt : α → α → Bool} {le : β → β → Bool} 
       · simp [y, y'] at h2
     · simp [hl.trans x y]
 
+theorem lexLe_total {α β} {lt : α → α → Bool} {le : β → β → Bool} (hl : StrictLin lt)
+    (ht : ∀ x y, le x y = true ∨ le y x = true) (a b : α × β) :
+    lexLe lt le a b = true ∨ lexLe lt le b a = true := by
+  unfold lexLe
+  cases x : lt a.1 b.1
+  · cases x' : lt b.1 a.1
+    · simpa using ht a.2 b.2
+    · simp
+  · simp
+
+theorem lexLe_antisymm {α β} {lt : α → α → Bool} {le : β → β → Bool} (hl : StrictLin lt)
+    (ha : ∀ x y, le x y = true → le y x = true → x = y) (a b : α × β)
+    (h1 : lexLe lt le a b = true) (h2 : lexLe lt le b a = true) : a = b := by
+  unfold lexLe at *
+  cases x : lt a.1 b.1
+  · cases x' : lt b.1 a.1
+    · simp only [x, x', Bool.false_eq_true, if_false] at h1 h2
+      exact Prod.ext (hl.tri _ _ x x') (ha _ _ h1 h2)
+    · simp [x, x'] at h1
+  · have := hl.asymm x
+    simp [x, this] at h2
+
 def intLt (a b : Int) : Bool := decide (a < b)
-def strLe (a b : String) : Bool := !decide (b < a)
+def strLt (a b : String) : Bool := decide (a < b)
+def boolLe (a b : Bool) : Bool := !(boolLt b a)
 
 theorem intLt_lin : StrictLin intLt where
   trans := by intro a b c h1 h2; simp [intLt] at *; omega
   asymm := by intro a b h; simp [intLt] at *; omega
   tri := by intro a b h1 h2; simp [intLt] at *; omega
 
-theorem optLt_lin : StrictLin optLt where
-  trans := optLt_trans
-  asymm := optLt_asymm
-  tri := optLt_trichotomy
+theorem strLt_lin : StrictLin strLt where
+  trans := by intro a b c h1 h2; simp [strLt] at *; exact String.lt_trans h1 h2
+  asymm := by intro a b h; simp [strLt] at *; exact String.lt_asymm h
+  tri := by
+    intro a b h1 h2; simp [strLt] at *
+    exact String.le_antisymm (String.not_lt.mp h2) (String.not_lt.mp h1)
 
-theorem strLe_trans {x y z : String} (h1 : strLe x y = true) (h2 : strLe y z = true) : strLe x z = true := by
-  simp [strLe] at *
-  exact String.not_lt.mpr (String.le_trans (String.not_lt.mp h1) (String.not_lt.mp h2))
+theorem boolLt_lin : StrictLin boolLt where
+  trans := by intro a b c; cases a <;> cases b <;> cases c <;> simp [boolLt]
+  asymm := by intro a b; cases a <;> cases b <;> simp [boolLt]
+  tri := by intro a b; cases a <;> cases b <;> simp [boolLt]
 
-theorem hdrLe_eq_lex (a b : Header) :
-    hdrLe a b = lexLe intLt (lexLe optLt (lexLe optLt strLe)) (hdrKey a) (hdrKey b) := by
-  simp [hdrLe, lexLe, intLt, strLe]
+theorem boolLe_trans {x y z : Bool} (h1 : boolLe x y = true) (h2 : boolLe y z = true) : boolLe x z = true := by
+  cases x <;> cases y <;> cases z <;> simp_all [boolLe, boolLt]
+theorem boolLe_total (x y : Bool) : boolLe x y = true ∨ boolLe y x = true := by
+  cases x <;> cases y <;> simp [boolLe, boolLt]
+theorem boolLe_antisymm (x y : Bool) (h1 : boolLe x y = true) (h2 : boolLe y x = true) : x = y := by
+  cases x <;> cases y <;> simp_all [boolLe, boolLt]
+
+/-- the five nested levels below the instant -/
+abbrev L5 := lexLe boolLt boolLe
+abbrev L4 := lexLe strLt L5
+abbrev L3 := lexLe strLt L4
+abbrev L2 := lexLe strLt L3
+abbrev L1 := lexLe intLt L2
+
+theorem hdrLe_eq_lex (a b : Header) : hdrLe a b = L1 (hdrKey a) (hdrKey b) := by
+  simp [hdrLe, L1, L2, L3, L4, L5, lexLe, intLt, strLt, boolLe]
+
+theorem L5_trans {x y z : Bool × Bool} (h1 : L5 x y = true) (h2 : L5 y z = true) : L5 x z = true :=
+  lexLe_trans boolLt_lin (@boolLe_trans) h1 h2
+theorem L4_trans {x y z : String × Bool × Bool} (h1 : L4 x y = true) (h2 : L4 y z = true) : L4 x z = true :=
+  lexLe_trans strLt_lin (@L5_trans) h1 h2
+theorem L3_trans {x y z : String × String × Bool × Bool} (h1 : L3 x y = true) (h2 : L3 y z = true) : L3 x z = true :=
+  lexLe_trans strLt_lin (@L4_trans) h1 h2
+theorem L2_trans {x y z : String × String × String × Bool × Bool} (h1 : L2 x y = true) (h2 : L2 y z = true) :
+    L2 x z = true := lexLe_trans strLt_lin (@L3_trans) h1 h2
 
 theorem hdrLe_trans {a b c : Header} (h1 : hdrLe a b = true) (h2 : hdrLe b c = true) : hdrLe a c = true := by
   rw [hdrLe_eq_lex] at *
-  have t3 : ∀ {x y z : Option String × String}, lexLe optLt strLe x y = true → lexLe optLt strLe y z = true →
-      lexLe optLt strLe x z = true := fun h1 h2 => lexLe_trans optLt_lin (@strLe_trans) h1 h2
-  have t2 : ∀ {x y z : Option String × Option String × String},
-      lexLe optLt (lexLe optLt strLe) x y = true → lexLe optLt (lexLe optLt strLe) y z = true →
-      lexLe optLt (lexLe optLt strLe) x z = true := fun h1 h2 => lexLe_trans optLt_lin (@t3) h1 h2
-  exact lexLe_trans intLt_lin (@t2) h1 h2
+  exact lexLe_trans intLt_lin (@L2_trans) h1 h2
+
+theorem hdrLe_total (a b : Header) : hdrLe a b = true ∨ hdrLe b a = true := by
+  rw [hdrLe_eq_lex, hdrLe_eq_lex]
+  exact lexLe_total intLt_lin (lexLe_total strLt_lin (lexLe_total strLt_lin (lexLe_total strLt_lin
+    (lexLe_total boolLt_lin boolLe_total)))) _ _
+
+/-- equal in the order ⇒ equal keys -/
+theorem hdrLe_antisymm (a b : Header) (h1 : hdrLe a b = true) (h2 : hdrLe b a = true) : hdrKey a = hdrKey b := by
+  rw [hdrLe_eq_lex] at *
+  exact lexLe_antisymm intLt_lin (lexLe_antisymm strLt_lin (lexLe_antisymm strLt_lin (lexLe_antisymm strLt_lin
+    (lexLe_antisymm boolLt_lin boolLe_antisymm)))) _ _ h1 h2
+
+theorem hdrLe_refl (a : Header) : hdrLe a a = true := by
+  rcases hdrLe_total a a with h | h <;> exact h
+
+theorem optStr_isSome_inj (a b : Option String) (h1 : optStr a = optStr b) (h2 : a.isSome = b.isSome) : a = b := by
+  cases a <;> cases b <;> simp_all [optStr]
+
+/-- the key determines instant, code, description and uuid text: "distinguishable" = different key -/
+theorem hdrKey_eq_iff (a b : Header) :
+    hdrKey a = hdrKey b ↔ a.ts.ns = b.ts.ns ∧ a.code = b.code ∧ a.desc = b.desc ∧ optStr a.uuid = optStr b.uuid := by
+  unfold hdrKey
+  constructor
+  · intro h
+    simp only [Prod.mk.injEq] at h
+    obtain ⟨h1, h2, h3, h4, h5, h6⟩ := h
+    exact ⟨h1, optStr_isSome_inj _ _ h2 h5, optStr_isSome_inj _ _ h3 h6, h4⟩
+  · rintro ⟨h1, h2, h3, h4⟩
+    simp [h1, h2, h3, h4]
 
 /-! ### sorted lists are unique up to permutation -/
 
